@@ -3,16 +3,16 @@
 #   applies patch.diff, builds, existing suite (stable_pass of BASELINE.json) still passes, demo fails;
 #   without the patch the demo passes. Prints a summary; removes the worktree.
 set -u
-seed="$1"; pkg="$2"; AWKFLAG=""; [ "$pkg" = "interp" ] && AWKFLAG="-awk="
+seed="$1"; pkg="$2"; RACE=""; [ "${3:-}" = "race" ] && RACE="-race" && export CGO_ENABLED=1; AWKFLAG=""; [ "$pkg" = "interp" ] && AWKFLAG="-awk="
 wt=$(mktemp -d /tmp/wt-confirm-XXXX)
 git -C /repo worktree add -q --detach "$wt" HEAD || exit 2
 export GOFLAGS=-mod=mod GOPROXY=off GOSUMDB=off GOTOOLCHAIN=local
 res=""
 cp "$seed"/*_test.go "$wt/$pkg/" 2>/dev/null
-(cd "$wt" && go test -vet=off -count=1 -run 'ZZ|Demo|Mutant|Seed' "./$pkg/" $AWKFLAG >/tmp/confirm_clean.log 2>&1) && res="$res demo-without-change=PASS" || res="$res demo-without-change=FAIL"
+(cd "$wt" && go test $RACE -vet=off -count=1 -run 'ZZ|Demo|Mutant|Seed' "./$pkg/" $AWKFLAG >/tmp/confirm_clean.log 2>&1) && res="$res demo-without-change=PASS" || res="$res demo-without-change=FAIL"
 if ! git -C "$wt" apply "$seed/patch.diff"; then echo "patch does not apply"; git -C /repo worktree remove --force "$wt"; exit 2; fi
 (cd "$wt" && go build ./... ) && res="$res build=ok" || res="$res build=FAIL"
-(cd "$wt" && go test -vet=off -count=1 -run 'ZZ|Demo|Mutant|Seed' "./$pkg/" $AWKFLAG >/tmp/confirm_mut.log 2>&1) && res="$res demo-with-change=PASS" || res="$res demo-with-change=FAIL"
+(cd "$wt" && go test $RACE -vet=off -count=1 -run 'ZZ|Demo|Mutant|Seed' "./$pkg/" $AWKFLAG >/tmp/confirm_mut.log 2>&1) && res="$res demo-with-change=PASS" || res="$res demo-with-change=FAIL"
 rm -f "$wt/$pkg"/zz_demo*_test.go
 python3 /verif/tools/baseline_check.py "$wt" > /tmp/confirm_base.log 2>&1 && res="$res suite=pass" || res="$res suite=REGRESSION"
 tail -1 /tmp/confirm_base.log
